@@ -53,16 +53,39 @@ theorem subscribe_needs_ev (s : St) (h : s.char.cfg.perms.ev = false) (e : PutEn
     (putEntry s e).1.sub = s.sub ∧
     ((putEntry s e).2.1 = .ok → (putEntry s e).2.2 = some (-70406)) := by
   have := putEntry_no_ev s h e
-  simp only [hev, Bool.false_eq_true, if_false] at this
+  simp only [failStatus, hev, Bool.not_false, if_true] at this
   exact this
 
-/-- Whole request: the response of a completed PUT lists exactly one −70406 entry per entry that
-    asked for events, in order. -/
-theorem put_statuses_without_ev (s : St) (h : s.char.cfg.perms.ev = false) (es : List PutEntry) :
-    (step s (.put es)).2.outcome = .ok → (step s (.put es)).2.statuses = evStatuses es := by
+/-- A value for a characteristic that is not writable is answered with status −70404 (F75: it was skipped without a
+    word, the request answered like a successful write), and — `remote_write_needs_pw` — changes nothing. -/
+theorem write_without_pw_is_answered (s : St) (hev : s.char.cfg.perms.ev = false) (hpw : s.char.cfg.perms.pw = false)
+    (e : PutEntry) (hv : JVal.isNull e.value = false) (he : JVal.isNull e.ev = true) :
+    (putEntry s e).2.1 = .ok → (putEntry s e).2.2 = some (-70404) := by
   intro hok
-  have := (putEntries_no_ev es s [] h).2 hok
-  simpa [step] using this
+  have := (putEntry_no_ev s hev e).2 hok
+  simpa [failStatus, he, hv, hpw, statusReadOnly] using this
+
+/-- Whole request (F75): the response of a completed PUT has no content exactly when no entry failed — none asked for
+    events, none carried a value for a characteristic that is not writable —, and otherwise it carries a status for EVERY
+    entry of the request, in order (0 for the ones that succeeded). -/
+theorem put_statuses_without_ev (s : St) (h : s.char.cfg.perms.ev = false) (es : List PutEntry) :
+    (step s (.put es)).2.outcome = .ok →
+      ((step s (.put es)).2.statuses = [] ↔ evStatuses s.char.cfg.perms.pw es = []) ∧
+      ((step s (.put es)).2.statuses ≠ [] → (step s (.put es)).2.statuses.length = es.length) := by
+  intro hok
+  have hf := (putEntries_no_ev es s [] h).2 hok
+  simp only [List.nil_append] at hf
+  simp only [step, hf]
+  cases hl : evStatuses s.char.cfg.perms.pw es with
+  | nil => simp
+  | cons x xs =>
+    simp only [List.isEmpty_cons, Bool.false_eq_true, if_false]
+    have hlen := putStatuses_length es s
+    have hes : es ≠ [] := by
+      intro he; subst he; simp [evStatuses] at hl
+    refine ⟨⟨fun h1 => ?_, fun h1 => by cases h1⟩, fun _ => hlen⟩
+    rw [h1] at hlen
+    exact absurd (List.length_eq_zero_iff.mp hlen.symm) hes
 
 /-- Whole histories: a characteristic without `ev` is never subscribed, hence (C10: events go to
     subscribed sessions only) never produces an event. -/
